@@ -353,6 +353,7 @@ func (t *Tree) parse() {
 //|	identifier '{' stmtStar '}' //special case for in and out
 func (t *Tree) stmt(ctx string, s *Scope) Node {
 	var arg string
+	var noArg bool
 	// The parser recurses once per level of nesting: bound it, a text of a
 	// few megabytes of "a{a{a{..." must not exhaust the stack (which cannot
 	// be recovered from).
@@ -364,17 +365,20 @@ func (t *Tree) stmt(ctx string, s *Scope) Node {
 	id := t.expect(itemString, ctx)
 	// A keyword is a YANG keyword or the prefixed name of an extension; the
 	// names the parser uses internally for node types are neither.
-	if !strings.Contains(id.val, ":") {
+	if k := strings.Index(id.val, ":"); k < 0 {
 		switch nt, known := nodeTypeMap[id.val]; {
 		case !known, nt == NodeUnknown, nt == NodeDeviateAdd, nt == NodeDeviateDelete,
 			nt == NodeDeviateReplace, nt == NodeDeviateNotSupported:
 			t.errorf("unknown statement %s in %s", id.val, ctx)
 		}
+	} else if !isIdentifier(id.val[:k]) || !isIdentifier(id.val[k+1:]) {
+		// prefix ":" identifier
+		t.errorf("invalid keyword %s in %s", id.val, ctx)
 	}
 	i := t.peekNonSpace()
 	switch i.typ {
-	case itemLeftBrace:
-		break
+	case itemLeftBrace, itemSemiColon:
+		noArg = true
 	default:
 		arg = t.argument("argument of " + id.val)
 	}
@@ -386,6 +390,12 @@ func (t *Tree) stmt(ctx string, s *Scope) Node {
 
 	//Validate cardinality, ordering, and arguemnt syntax
 	e := n.check()
+	if e == nil && noArg && !strings.Contains(id.val, ":") &&
+		n.Type() != NodeInput && n.Type() != NodeOutput {
+		// Only input, output and extension statements go without an
+		// argument; an empty string is written "".
+		e = fmt.Errorf("missing argument")
+	}
 	if e != nil {
 		s, _ := n.ErrorContext()
 		panic(fmt.Errorf("%s: %s", s, e))
